@@ -1,6 +1,6 @@
 (* Proofs for C02, control flow: under the guard of Lang/StmtRef.v the declaration bookkeeping of
    if/elif/else, while, for, tuple assignment and function bodies (Lang/Decl.v) declares every name
-   with the C type of the label it finally has, and every value any path of the reference semantics
+   with the C type of its declared label, and every value any path of the reference semantics
    stores into a name is held by that label. *)
 From Coq Require Import ZArith QArith List Bool Lia.
 From RV Require Import Base.Wire Base.Text Lang.PyAst Lang.PySem Lang.Infer Lang.InferGuard Lang.InferSpec
@@ -383,7 +383,7 @@ Proof.
     + intro x. rewrite !map_fst_keyed. intro H; exact H.
 Qed.
 
-(* ------------------------------------------------------------------ (S): values against the final label table *)
+(* ------------------------------------------------------------------ (S): values against the declared labels *)
 Definition env_lab (L : tenv) (rho : env) : Prop :=
   forall x v, lookup x rho = Some v -> exists t, tlookup x L = Some t /\ repr t v.
 Definition env_lab_ex (i : ident) (L : tenv) (rho : env) : Prop :=
@@ -1638,7 +1638,7 @@ Proof.
   split; assumption.
 Qed.
 
-Theorem stored_values_within_final_labels :
+Theorem stored_values_within_declared_labels :
   forall (S : Type) call C F A (Inv : S -> Prop),
     (forall d sp G f sg, Inv (fst sp) ->
        Inv (fst (fst (call d sp G f sg))) /\ snd (call d sp G f sg) = resolve_call F A f sg) ->
